@@ -29,6 +29,7 @@ def trusted(store: Opaque, name: Opaque, key: Opaque) -> Bool:
 @contract("<ext>", "axolotl.sessionbuilder.SessionBuilder", assumed=True, reason=R)
 def SessionBuilder(sessionStore: Opaque("store"), preKeyStore: Opaque("store"), signedPreKeyStore: Opaque("store"),
                    identityKeyStore: Opaque("store"), recepientId: Opaque("name"), deviceId: Int) -> Obj("SessionBuilder"):
+    requires(deviceId == 1)        # WhatsApp addresses device 1 everywhere (session_exists, the session cipher): a session for another device id is never found again
     ensures(same_obj(result.store, identityKeyStore) and same_obj(result.recipient, recepientId))
 
 
